@@ -88,7 +88,7 @@ fn owned(profile: Profile, v: &Viol) -> bool {
     let insert_op = matches!(v.op.as_str(), "insert_row" | "push_row" | "insert_col" | "push_col");
     let remove_op = matches!(v.op.as_str(), "remove_row" | "pop_row" | "remove_col" | "pop_col");
     match profile {
-        Profile::C01 => !v.after_fault && matches!(k, "shape" | "lens" | "cells" | "verdict" | "audit_panic" | "redzone" | "crash"),
+        Profile::C01 => !v.after_fault && matches!(k, "shape" | "lens" | "cells" | "cells_after_reject" | "verdict" | "audit_panic" | "redzone" | "crash"),
         Profile::C05 => matches!(k, "ledger" | "leak" | "redzone" | "provenance" | "crash"),
         // C06 / C07 speak about placement, the drain's items and the rejection of bad arguments:
         // iterator length reports (lens) and drop accounting (ledger, leak) belong to C01 / C05
